@@ -4,10 +4,17 @@
 (*   {"ev":"reset"}                       a new interpreter / new trace      *)
 (*   {"ev":"step","op":"resetvars"}       ResetVars was called               *)
 (*   {"ev":"step","op":"resetrand"}       ResetRand was called               *)
-(*   {"ev":"step","op":"run","kind":k,"cfg":c,"status":n,"err":e,           *)
+(*   {"ev":"step","op":"run","kind":k,"cfg":c,"tag":t,"status":n,"err":e,   *)
 (*    "out":[{"k":key,"v":bytes},...],"randfresh":b}                         *)
-(*        one Execute/ExecuteContext call and everything it printed; b says  *)
-(*        whether the rand chunk equals the first rand() of a new interpreter*)
+(*        one Execute/ExecuteContext call and everything it printed; t makes *)
+(*        the run's standard input its own; b says whether the rand chunk    *)
+(*        equals the first rand() of a new interpreter                       *)
+(* Whatever the code did is an event: an error class no run is predicted to  *)
+(* have ("deadline" from a context that is not the call's own, "panic"), an  *)
+(* empty output, output that is not of the program's form (chunk key "?"),   *)
+(* a kind or configuration the specification does not know.  All of these    *)
+(* are REJECTED (and then reproduced on the real code by the check); none    *)
+(* may stop TLC.                                                             *)
 EXTENDS Reuse, TraceBase
 
 VARIABLES st, l
@@ -28,15 +35,21 @@ Explains(ev, ex) ==
   /\ ev.err = ex.res.err
   /\ OutMatches(ex.res.out, ev.out, ev.randfresh)
 
+Known(ev) == ev.kind \in Kinds /\ ev.cfg \in CfgNames /\ ev.tag \in 1..99
+
 TRun ==
   /\ l <= NLog /\ Log[l].ev = "step" /\ Log[l].op = "run"
-  /\ LET ev == Log[l]
-         ex == ExecSpec(st, ev.kind, CfgNamed(ev.cfg))
-     IN IF Explains(ev, ex)
-        THEN st' = ex.st /\ l' = l + 1
-        ELSE /\ Reject(l, [kind |-> ev.kind, cfg |-> ev.cfg, expected |-> ex.res])
-             /\ st' = StInit
-             /\ l' = AfterNextReset(l)
+  /\ \E ev \in {Log[l]} :
+       IF ~Known(ev)
+       THEN /\ Reject(l, [kind |-> ev.kind, cfg |-> ev.cfg, unknown |-> TRUE])
+            /\ st' = StInit
+            /\ l' = AfterNextReset(l)
+       ELSE \E ex \in {ExecSpec(st, ev.kind, WithTag(CfgNamed(ev.cfg), ev.tag))} :
+              IF Explains(ev, ex)
+              THEN st' = ex.st /\ l' = l + 1
+              ELSE /\ Reject(l, [kind |-> ev.kind, cfg |-> ev.cfg, expected |-> ex.res])
+                   /\ st' = StInit
+                   /\ l' = AfterNextReset(l)
 
 TResetVars == l <= NLog /\ Log[l].ev = "step" /\ Log[l].op = "resetvars" /\ st' = ResetVarsOp(st) /\ l' = l + 1
 TResetRand == l <= NLog /\ Log[l].ev = "step" /\ Log[l].op = "resetrand" /\ st' = ResetRandOp(st) /\ l' = l + 1
